@@ -219,6 +219,7 @@ prop('C15',
                   'outlined std idiom chain+cloned+collect on byte slices equals concatenation'],
      design_ref='DESIGN.md section 4 C15')
 prop('C19',
+     units=['frost_core', 'frost_secp256k1_tr'],   # the Taproot unit re-verifies Item::new / VerifyingKey::verify hook-generically (pre_verify is not the identity there)
      level_text='For every ciphersuite (abstract field/group), every batch size, every mix of keys, messages and signatures and every RNG stream: '
                 'Verus proves the real text of batch::Verifier::verify / new / default / queue, batch::Item::new / verify_single, '
                 'VerifyingKey::verify_prehashed / verify, the free fn challenge and the default hooks pre_verify / challenge / verify_signature against '
@@ -344,7 +345,7 @@ prop('C17', units=['frost_rerandomized'],
 
 prop('C14',
      kani=True,
-     all_functions=True, units=['frost_core', 'frost_rerandomized'],
+     all_functions=True, units=['frost_core', 'frost_rerandomized', 'frost_secp256k1_tr'],
      level_text='Verus proves every function of the frost_core unit that is emitted in verified mode (all protocol steps that consume material from other parties: sign, aggregate, '
                 'aggregate_custom, verify_signature_share, detect_cheater, SecretShare::verify, KeyPackage::try_from, reconstruct, dkg part1/part2/part3, refresh_share, '
                 'compute_refreshing_shares, repair parts 1-3, batch verification, and the byte-level decoders Signature::default_deserialize, SerializableScalar/Element::deserialize, '
